@@ -5,11 +5,11 @@ CONF = dict(
     props='Props/C11.v',
     rule=('c11.hist: histories of 4..45 calls of the real core/client.IPClient (NTS enabled, real ntske.Fetcher) against the real NTS-KE server (TLS 1.3, run-time certificate) '
           'and the real NTP listener (server.StartIPServer) sharing one real ntske.Provider, through a relay of the harness that delivers, loses the request, loses the reply, '
-          'flips one bit of the reply, replays an earlier reply, duplicates the request, lets the client run into its deadline, makes a needed key exchange fail, or injects a forged datagram with cleartext cookie fields ahead of the genuine reply; shapes: '
+          'flips one bit of the reply, replays an earlier reply, duplicates the request, lets the client run into its deadline, makes a needed key exchange fail in one of six ways (client refuses the certificate; through a front of the real NTS-KE server: peer closes at once, stream cut inside the handshake or the records, scripted TLS peer answering cookies then an Error record, cookies without End, unknown algorithm or no cookie), lets it succeed naming a server that is not an IP address, or injects a forged datagram with cleartext cookie fields ahead of the genuine reply; shapes: '
           'loss-free, k = 0..9 consecutive losses then recovery (every pool level 8..0), complete drain and re-keying (once or twice), random mixes, provider aged by '
           '1/23/25/30/47/49 h between calls (key rotation while old cookies stay valid), aged by 73..200 h (keys of the pooled cookies expire: server silent, pool drains, '
           're-key), a client quiet for two rotations but less than 72 h (must still be answered), loss-free operation across 4..6 rotations and more than 72 h in all, forged datagrams at every pool level. Recorded per call: request and reply datagrams, whether the cookie should open (under a key that was handed out as current and whose 72 h are not over - kept by the harness, independent of what the provider still holds), the current key id of the provider right after the reply, the reply opened with miscreant, every reply cookie opened the '
-          'way the server opens cookies, pool and keys of the fetcher afterwards (verif hook), completed TLS handshakes. c11.srv: authenticated requests of any shape (1..3 '
+          'way the server opens cookies, pool and keys of the fetcher afterwards (verif hook), completed TLS handshakes. c11.srv (IP and SCION listener alike): cookies under keys that were rotated out but are valid (answered) and under expired keys (refused), each request sent once before the provider is aged; authenticated requests of any shape (1..3 '
           'cookies, 0..40 placeholders of 0..128 bytes, identifiers of 32..164 bytes) built with the real encoder and sent to the real listener. c11.req / c11.resp: '
           'nts.NewRequestPacket / NewResponsePacket + EncodePacket on crafted pools and cookie lists (pool level 0..14, cookie lengths 0..1100 dense around every length at '
           'which one field more or less fits, identifier lengths 0..940, keys of wrong length), compared byte for byte. c11.store: Fetcher.StoreCookie around MaxCookieLen. '
@@ -23,7 +23,7 @@ CONF = dict(
     trusted=['modelled, not verified: miscreant AES-SIV (Section variable; the harness recomputes every seal/open with miscreant and the runner checks that the model asks for '
              'exactly that query), crypto/rand (unique identifier and nonces are inputs), crypto/tls and the NTS-KE record exchange (C20), the provider (C12)',
              'the verif hook net/ntske/hooks_verif.go (add-only: Fetcher.VerifData reads the cached data, Provider.VerifAge moves the provider\'s times into the past)',
-             'the relay, the sentinel request that decides "no reply", and the re-opening of cookies with the project\'s own cookie decoder in the harness'],
+             'the relay, the front of the NTS-KE server, the sentinel request that decides "no reply" (no verdict depends on a wall-clock allowance: the 1.5 s deadline of a timeout step may pass before the request leaves, which is recorded and accepted; everything else waits up to 60 s and only a hang is reported), and the re-opening of cookies with the project\'s own cookie decoder in the harness'],
     technique=('Coq proof: an inductive invariant of (pool, cookies sent, cookies issued) preserved by every call for all histories of successes, losses, failed key exchanges '
                'and foreign issues (no reuse, pool <= 8, never shrinks on success, 8 stays 8, loss-free = 8, two successes restore 8); arithmetic over Go\'s truncating division '
                'for maxCookies (fits, and maximal); the encoders modelled on the fixed 1024-byte buffer (silent truncation of copy, panic of PutUint16) and proved to produce '
@@ -44,5 +44,5 @@ CONF = dict(
                  'reply <= 1024, well formed, authenticates under S2C, one new cookie per requested field (fewer only if one more would not fit), each new, each sealed under the provider\'s current key and opening under a valid key to the session keys; every pool cookie was pooled before, came with this call\'s key exchange or inside the authenticated reply, none from a forged datagram; '
                  'a process that dies during a history is a failure'),
     timeout_quick=900, timeout_thorough=3000,
-    min_cases={'c11.const': 1, 'c11.hist': 69, 'c11.req': 471, 'c11.resp': 540, 'c11.srv': 135, 'c11.store': 90},
+    min_cases={'c11.const': 1, 'c11.hist': 72, 'c11.req': 471, 'c11.resp': 540, 'c11.srv': 148, 'c11.store': 90},
 )
